@@ -1,1 +1,106 @@
-pub fn hello() {}
+//! Minimal in-memory typst World: one main file, embedded fonts, fixed date; compile + rasterise.
+
+use std::hash::{Hash, Hasher};
+use std::sync::OnceLock;
+
+use typst::diag::{FileError, FileResult};
+use typst::foundations::{Bytes, Datetime};
+use typst::layout::PagedDocument;
+use typst::syntax::{FileId, Source, VirtualPath};
+use typst::text::{Font, FontBook};
+use typst::utils::LazyHash;
+use typst::{Library, World};
+
+struct Shared {
+    library: LazyHash<Library>,
+    book: LazyHash<FontBook>,
+    fonts: Vec<Font>,
+}
+
+static SHARED: OnceLock<Shared> = OnceLock::new();
+
+fn shared() -> &'static Shared {
+    SHARED.get_or_init(|| {
+        let fonts: Vec<Font> = typst_assets::fonts().flat_map(|d| Font::iter(Bytes::new(d))).collect();
+        Shared { library: LazyHash::new(Library::default()), book: LazyHash::new(FontBook::from_fonts(&fonts)), fonts }
+    })
+}
+
+struct W {
+    main: Source,
+}
+
+impl W {
+    fn new(text: &str) -> Self {
+        W { main: Source::new(FileId::new(None, VirtualPath::new("/main.typ")), text.into()) }
+    }
+}
+
+impl World for W {
+    fn library(&self) -> &LazyHash<Library> {
+        &shared().library
+    }
+    fn book(&self) -> &LazyHash<FontBook> {
+        &shared().book
+    }
+    fn main(&self) -> FileId {
+        self.main.id()
+    }
+    fn source(&self, id: FileId) -> FileResult<Source> {
+        if id == self.main.id() {
+            Ok(self.main.clone())
+        } else {
+            Err(FileError::NotFound(id.vpath().as_rootless_path().into()))
+        }
+    }
+    fn file(&self, id: FileId) -> FileResult<Bytes> {
+        Err(FileError::NotFound(id.vpath().as_rootless_path().into()))
+    }
+    fn font(&self, i: usize) -> Option<Font> {
+        shared().fonts.get(i).cloned()
+    }
+    fn today(&self, _: Option<i64>) -> Option<Datetime> {
+        Datetime::from_ymd(2024, 1, 1)
+    }
+}
+
+#[derive(Debug, PartialEq, Eq, Clone)]
+pub struct Rendered {
+    /// hash of the pixmap of each page (with its dimensions)
+    pub pages: Vec<u64>,
+    /// some page is not blank
+    pub non_blank: bool,
+    /// title / authors / keywords of the document
+    pub info: String,
+}
+
+/// Ok(rendered pages) or Err(diagnostic messages)
+pub fn render(text: &str, scale: f32) -> Result<Rendered, Vec<String>> {
+    let w = W::new(text);
+    match typst::compile::<PagedDocument>(&w).output {
+        Ok(doc) => {
+            let mut pages = vec![];
+            let mut non_blank = false;
+            for p in &doc.pages {
+                let pm = typst_render::render(p, scale);
+                let mut h = std::collections::hash_map::DefaultHasher::new();
+                pm.data().hash(&mut h);
+                pm.width().hash(&mut h);
+                pm.height().hash(&mut h);
+                pages.push(h.finish());
+                let d = pm.data();
+                if !non_blank && d.chunks(4).any(|px| px != &d[0..4]) {
+                    non_blank = true;
+                }
+            }
+            let info = format!("{:?}|{:?}|{:?}", doc.info.title, doc.info.author, doc.info.keywords);
+            Ok(Rendered { pages, non_blank, info })
+        }
+        Err(e) => Err(e.iter().map(|d| d.message.to_string()).collect()),
+    }
+}
+
+/// Drop memoised results older than `max_age` compilations.
+pub fn evict(max_age: usize) {
+    comemo::evict(max_age);
+}
